@@ -23,6 +23,10 @@ branches, threaded `St`) from the real interpreter functions, and answers `true`
   (c) `runState`: `Type` is none of the eight,
   (d) `handleErr`: the matching Catcher has no string `Next`,
   (e) `runBranches` / `runItems`: the branch / iterator lacks a string `StartAt` or `States`.
+
+The execution's time limit (`Env.deadline`) and the stop of Map batches after a failure are not mirrored: `ill*`
+follows the untimed control flow, so for a run that the limit cuts short (or a Map that fails in an early batch) it
+may name a site the run no longer reaches — an over-approximation, which is the safe side for C18's use of it.
 -/
 import AslModel.Interp
 namespace Asl.Machine
@@ -141,8 +145,13 @@ def nodup : List Str → Bool
   | [] => true
   | x :: xs => !xs.contains x && nodup xs
 
+/-- no state, at any nesting level, is named by the empty string: the engine identifies a state by its name and takes
+an event whose state name is empty for the start of a new execution, so such a state could never be entered (a fan-out
+whose branch has `StartAt: ""` is refused as an Illegal State Machine) -/
+def namesOk (m : Json) : Bool := !(namesIn m.size m).contains []
+
 /-- the definition is well-formed (fuel: the size of the value bounds its nesting depth) -/
-def WF (m : Json) : Bool := wfBranch m.size m && nodup (namesIn m.size m) && timeoutOk m
+def WF (m : Json) : Bool := wfBranch m.size m && nodup (namesIn m.size m) && timeoutOk m && namesOk m
 
 /-! ### problems -/
 
@@ -349,8 +358,8 @@ def illState (env : Env) : Nat → Json → Str → Json → Json → Json → N
           let mc : Nat := match fld state "MaxConcurrency" with | some (.num n) => n.toNat | _ => 0
           illItems env fuel proc selector input items 0 mc st.clock ctx st ||
             illJoin env fuel states name state data ctx retries
-              (runItems env fuel proc selector input items 0 mc st.clock ctx st).1
-              (runItems env fuel proc selector input items 0 mc st.clock ctx st).2
+              (runItems env fuel proc selector input items 0 mc st.clock ctx false st).1
+              (runItems env fuel proc selector input items 0 mc st.clock ctx false st).2
     else true                                                                        -- site (c)
 termination_by structural fuel => fuel
 
